@@ -56,8 +56,13 @@ impl Fam {
                 let mut u = t.clone();
                 let _ = u.estimate();
                 let _ = u.lower_bound(datasketches::common::NumStdDev::Two);
-                let _ = u.validate();
-                let _ = u.verif_bit_matrix();
+                // operations that build the K x 64 bit matrix (8 K bytes) are legitimate but would be charged to the
+                // parser's allocation budget: only for lg_k <= 16
+                let small = t.lg_k() <= 16;
+                if small {
+                    let _ = u.validate();
+                    let _ = u.verif_bit_matrix();
+                }
                 for i in 0..40i64 {
                     u.update(i);
                 }
@@ -66,7 +71,10 @@ impl Fam {
                 let mut un = CpcUnion::with_seed(t.lg_k(), self.seed);
                 un.update(&t);
                 un.update(&u);
-                let _ = un.to_sketch().validate();
+                let r = un.to_sketch();
+                if small {
+                    let _ = r.validate();
+                }
                 let _ = datasketches::cpc::CpcWrapper::new(bytes).map(|w| w.estimate());
                 ob
             }
@@ -121,7 +129,22 @@ impl Family for Fam {
                 let bytes = s.serialize();
                 let t = CpcSketch::deserialize_with_seed(&bytes, self.seed).expect("round trip");
                 let same = t.verif_bit_matrix() == s.verif_bit_matrix();
-                vec![c as i128, flavor as i128, off as i128, valid as i128, (!bytes.is_empty()) as i128,
+                // C17: the rest of the public API at this configuration extreme (any panic is caught by the caller)
+                let e = t.estimate();
+                let lo = t.lower_bound(datasketches::common::NumStdDev::Two);
+                let hi = t.upper_bound(datasketches::common::NumStdDev::Two);
+                let w = datasketches::cpc::CpcWrapper::new(&bytes).expect("wrapper");
+                let we = w.estimate();
+                let sane = e.is_finite() && lo <= e && e <= hi && we.is_finite() && w.lg_k() == lg_k;
+                let mut union_ok = true;
+                if lg_k <= 22 {
+                    let mut u = CpcUnion::with_seed(lg_k, self.seed);
+                    u.update(&t);
+                    u.update(&s);
+                    let r = u.to_sketch();
+                    union_ok = r.num_coupons() == c && r.validate() && !r.serialize().is_empty();
+                }
+                vec![c as i128, flavor as i128, off as i128, valid as i128, (sane && union_ok && !bytes.is_empty()) as i128,
                      t.num_coupons() as i128, same as i128]
             }
             40 => {
